@@ -177,7 +177,7 @@ _GI_CASES = [dict(held=h, loadable=l, key=k, mode=m) for h in ((), ('H2O',), ('H
              for k in ('H2O', 'CH4') for m in ('linear', 'exp')]
 
 for _mod, _cls, _dn in (('opacitycache', 'OpacityCache', 'opacity_dict'), ('ktablecache', 'KTableCache', 'opacity_dict')):
-    Unit('C14', CA + '%s:%s.__getitem__' % (_mod, _cls), _cache_params(_cls, _dn), raises=_gi_raises(_dn), post=_gi_post(_dn),
+    Unit(['C14', 'C20'] if _cls == 'KTableCache' else 'C14', CA + '%s:%s.__getitem__' % (_mod, _cls), _cache_params(_cls, _dn), raises=_gi_raises(_dn), post=_gi_post(_dn),
          abstract=dict(_NEW, **{'call:load_opacity': _h_load(_dn)}), cases=_GI_CASES, bounds=[{}],
          native=_cache_native('taurex.cache.' + _mod, _cls, _dn), gen=lambda rng: dict(rng.choice(_GI_CASES)),
          frame_attrs=[('self', _dn)], short='%s.__getitem__' % _cls,
@@ -222,7 +222,7 @@ def _ao_native(modname, clsname):
 
 _AO_CASES = [dict(held=h, filter=f, name=n) for h in ((), ('H2O',)) for f in (None, ('H2O',), ('CH4',), ()) for n in ('H2O', 'CH4')]
 for _mod, _cls in (('opacitycache', 'OpacityCache'), ('ktablecache', 'KTableCache')):
-    Unit('C14', CA + '%s:%s.add_opacity' % (_mod, _cls), _ao_params(_cls), post=_ao_post, cases=_AO_CASES, bounds=[{}],
+    Unit(['C14', 'C20'] if _cls == 'KTableCache' else 'C14', CA + '%s:%s.add_opacity' % (_mod, _cls), _ao_params(_cls), post=_ao_post, cases=_AO_CASES, bounds=[{}],
          native=_ao_native('taurex.cache.' + _mod, _cls), gen=lambda rng: dict(rng.choice(_AO_CASES)), frame_attrs=[('self', 'opacity_dict')],
          short='%s.add_opacity' % _cls, doc='an object is stored only for a molecule that is not held yet and is requested; held objects are never replaced')
 
@@ -438,14 +438,20 @@ def _write_formats(d, rng, table):
     out['ciapickle'] = p
     p = os.path.join(d, 'cia', 'H2-He_2011.cia')
     half = len(cw) // 2
-    bands = [(0, half), (half, len(cw))] if half >= 1 and len(cw) - half >= 1 else [(0, len(cw))]
+    if table.get('interleave_bands') and len(cw) >= 4:
+        # two wavenumber ranges that OVERLAP (as in H2-H2_2011.cia): alternate points belong to alternate ranges
+        bands = [list(range(0, len(cw), 2)), list(range(1, len(cw), 2))]
+    elif half >= 1 and len(cw) - half >= 1:
+        bands = [list(range(0, half)), list(range(half, len(cw)))]
+    else:
+        bands = [list(range(len(cw)))]
     blocks = [(b, k) for b in bands for k in range(len(cT))]
     if table.get('shuffle_blocks'):
         rng.shuffle(blocks)
     with open(p, 'w') as f:
-        for (a, b), k in blocks:
-            f.write('%20s%10.3f%10.3f%7d%7.1f%10.3e\n' % ('H2-He', cw[a], cw[b - 1], b - a, cT[k], cx[k, a:b].max() * 1e10))
-            for j in range(a, b):
+        for idx, k in blocks:
+            f.write('%20s%10.3f%10.3f%7d%7.1f%10.3e\n' % ('H2-He', cw[idx[0]], cw[idx[-1]], len(idx), cT[k], cx[k, idx].max() * 1e10))
+            for j in idx:
                 f.write('%.17g %.17g\n' % (cw[j], cx[k, j] * 1e10))
     out['hitran'] = p
     return out
@@ -486,12 +492,12 @@ def _b_formats(seed, tier):
             table = dict(T=T, P=P, wn=wn, xs=xs, mol=mol, file_mol=file_mol, weights=wts,
                          kcoeff=10 ** np.array([[[[rng.uniform(-26, -16) for _ in range(nG)] for _ in range(nW)] for _ in range(nT)] for _ in range(nP)]),
                          ciaT=np.array(sorted(round(rng.uniform(100, 3000), 1) for _ in range(nCT))),
-                         ciawn=np.array(sorted(round(rng.uniform(20, 10000), 3) for _ in range(nCW))), shuffle_blocks=rng.random() < 0.6)
+                         ciawn=np.array(sorted(round(rng.uniform(20, 10000), 3) for _ in range(nCW))), shuffle_blocks=rng.random() < 0.6, interleave_bands=rng.random() < 0.5)
             table['cia'] = 10 ** np.array([[rng.uniform(-60, -50) for _ in range(nCW)] for _ in range(nCT)])
             if len(set(table['ciaT'])) < nCT or len(set(table['ciawn'])) < nCW:
                 continue
             paths = _write_formats(d, rng, table)
-            inp = dict(case=it, seed=seed, nT=nT, nP=nP, nW=nW, mol=mol, file_mol=file_mol, shuffled_hitran_blocks=table['shuffle_blocks'])
+            inp = dict(case=it, seed=seed, nT=nT, nP=nP, nW=nW, mol=mol, file_mol=file_mol, shuffled_hitran_blocks=table['shuffle_blocks'], overlapping_hitran_ranges=table['interleave_bands'])
             cases += 1
             readers = {'pickle': lambda: PickleOpacity(paths['pickle'], 'linear'), 'hdf5_bar': lambda: HDF5Opacity(paths['hdf5_bar'], 'linear', True),
                        'hdf5_Pa': lambda: HDF5Opacity(paths['hdf5_Pa'], 'linear', True), 'exotransmit': lambda: ExoTransmitOpacity(paths['exotransmit'], 'linear')}
@@ -798,7 +804,7 @@ def _pkk_gen(rng):
                 ks=[[[[10 ** rng.uniform(-30, -18) for _ in range(G)] for _ in range(W)] for _ in range(NT)] for _ in range(NP)])
 
 
-PKK = Unit('C14', 'taurex.opacity.ktables.picklektable:PickleKTable._load_pickle_file', _pkk_params,
+PKK = Unit(['C14', 'C20'], 'taurex.opacity.ktables.picklektable:PickleKTable._load_pickle_file', _pkk_params,
            pre=lambda c, v: {'sizes': c.And(c.Len(v._file['bin_centers']) >= 1, c.Len(v._file['t']) >= 1, c.Len(v._file['p']) >= 1, c.Len(v._file['weights']) >= 1)},
            post=_pkk_post, abstract={'call:open': _h_open, 'call:load': _h_pickle_load},
            frame_attrs=[('self', a) for a in _KT_ATTRS], inline=['clean_molecule_name', 'moleculeName'], native=_pkk_native, gen=_pkk_gen,
@@ -1280,7 +1286,7 @@ def _disc_unit(modname, clsname, pathkey):
         cases = [dict(cs, mem=m) for cs in cases for m in (None, False)]
     ab = {'new:GlobalCache': lambda ex, st, args, kwargs, node: AbsObj('GlobalCache', 'g', {}), 'GlobalCache.__getitem__': h_gc_get,
           'call:glob': h_glob, 'call:join': lambda ex, st, args, kwargs, node: '/'.join(args), 'call:Path': h_path, 'new:HDF5Opacity': h_new_h5}
-    return Unit('C14', '%s:%s.discover' % (modname, clsname), params, post=post, cases=cases, bounds=[{}], abstract=ab, native=native,
+    return Unit(['C14', 'C20'] if clsname == 'PickleKTable' else 'C14', '%s:%s.discover' % (modname, clsname), params, post=post, cases=cases, bounds=[{}], abstract=ab, native=native,
                 gen=lambda rng: dict(rng.choice(cases)), short=clsname + '.discover',
                 doc='discovery: nothing when no path is configured; otherwise every file under the configured path that matches this reader\'s '
                     'pattern(s) is listed once, under the sanitised molecule name taken from its file name (HDF5 cross-sections: from the name '
